@@ -303,7 +303,7 @@ fn check_banded(
         Err((symptom, detail)) => {
             // the split-run shape is one root cause whatever the entry point; everything else is
             // keyed by entry point
-            let key = if symptom.starts_with("ins-run-split-at-yclip") || symptom.starts_with("del-run-split-at-xclip") {
+            let key = if symptom.starts_with("ins-run-split-at-yclip") || symptom.starts_with("del-run-split-at-xclip") || symptom.starts_with("zero-length-clip-in-path") {
                 format!("C02/{}", symptom)
             } else if symptom == "suboptimal" {
                 format!("C02/{}/full-band-suboptimal", e.name())
@@ -469,7 +469,7 @@ fn forked_case(ctx: &mut Ctx, scheme: &Scheme, k: usize, w: usize, e: &Entry, x:
                     for (symptom, detail) in r.violations {
                         let key = if symptom.starts_with("C02/") {
                             symptom
-                        } else if symptom.starts_with("ins-run-split-at-yclip") || symptom.starts_with("del-run-split-at-xclip") {
+                        } else if symptom.starts_with("ins-run-split-at-yclip") || symptom.starts_with("del-run-split-at-xclip") || symptom.starts_with("zero-length-clip-in-path") {
                             format!("C02/{}", symptom)
                         } else {
                             format!("C02/empty-sequence/{}/{}", class, symptom)
